@@ -290,8 +290,17 @@ Section MapM.
     end.
 End MapM.
 
+(* sizes of the NEW parent as Data.copy reads them: an object that had vertices keeps a (possibly empty) vertex array *)
+Definition nverts_after (p p' : payload) : option nat :=
+  match nverts_of p with None => None | Some _ => Some (length (verts p')) end.
+Definition ncells_after (p p' : payload) : option nat :=
+  match knd p, geok p with
+  | KObject, GGrid => Some (ncell p)
+  | _, _ => match ncells_of p with None => None | Some _ => Some (length (cells p')) end
+  end.
+
 Definition child_ctx (cx : ctx) (p p' : payload) (c : tree) : ctx :=
-  {| cmk := child_cmask cx p (pl (root_node c)); pnv := nverts_of p'; pnc := ncells_of p';
+  {| cmk := child_cmask cx p (pl (root_node c)); pnv := nverts_after p p'; pnc := ncells_after p p';
      with_children := true; omit_meta := false; over := [] |}.
 
 Fixpoint copy_tree (t : tree) (cx : ctx) (st : cst) {struct t} : res (tree * cst) :=
